@@ -194,9 +194,12 @@ def _lenmat(A):
 
 def _status(res, func, st, out, case):
     """record exceptions / timeouts of an in-domain call; returns True when the call produced a value"""
+    base = func.split(':')[0]
+    res['stats']['calls:' + base] = res['stats'].get('calls:' + base, 0) + 1
     if st == 'ok':
         return True
     if st == 'timeout':
+        func = base
         res['stats']['timeout:' + func] = res['stats'].get('timeout:' + func, 0) + 1
     else:
         res['fails'].append((func, 'raises', {'exception': out}))
@@ -256,13 +259,23 @@ def _floyd_block(bct, res, case, A, transform, Lm, oracle, best, tol, exact, rou
     npaths = 0
     for s in range(n):
         for t in range(n):
-            if s == t:
-                continue
             st2, p = call(bct.retrieve_shortest_path, s, t, hops, Pmat, t=3)
+            res['stats']['calls:retrieve_shortest_path'] = res['stats'].get('calls:retrieve_shortest_path', 0) + 1
             if st2 != 'ok':
                 if st2 == 'exc':
                     res['fails'].append(('retrieve_shortest_path', 'raises', {'s': s, 't': t, 'transform': transform, 'exception': p}))
-                paths.append(None); continue
+                else:
+                    res['stats']['timeout:retrieve_shortest_path'] = res['stats'].get('timeout:retrieve_shortest_path', 0) + 1
+                if s != t:
+                    paths.append(None)
+                continue
+            if s == t:
+                # what the code does for s = t (Props/C12.lean: retrieve_self): hops[s,s] = 0, so the result is empty
+                res['stats']['self_pairs'] = res['stats'].get('self_pairs', 0) + 1
+                if len(p) != 0:
+                    res['fails'].append(('retrieve_shortest_path', 'self-pair-empty', {'s': s, 'transform': transform,
+                                                                                       'path': [int(x) for x in np.asarray(p).ravel()]}))
+                continue
             plist = [int(x) for x in np.asarray(p).ravel()] if len(p) else []
             paths.append(plist)
             unreachable = math.isinf(oracle[s, t])
@@ -279,10 +292,13 @@ def _floyd_block(bct, res, case, A, transform, Lm, oracle, best, tol, exact, rou
                                                                            'hops': float(hops[s, t]), 'SPL': fstr(SPL[s, t]),
                                                                            'cond': {'inexact_floats': not exact}}))
     res['stats']['paths_checked'] = res['stats'].get('paths_checked', 0) + npaths
-    if exact and all(p is not None for p in paths):
+    if exact:
         line = 'floyd n=%d A=%s transform=%s' % (n, mstr(A), transform or 'none')
-        spec = [('SPL', 'exact', mstr(SPL)), ('hops', 'exact', istr(hops)), ('P', 'exact', istr(Pmat)),
-                ('paths', 'exact', ';'.join(pstr(p) for p in paths) or '-')]
+        spec = [('SPL', 'exact', mstr(SPL)), ('hops', 'exact', istr(hops)), ('P', 'exact', istr(Pmat))]
+        if all(p is not None for p in paths):
+            spec.append(('paths', 'exact', ';'.join(pstr(p) for p in paths) or '-'))
+        else:       # a retrieve call hit the watchdog (counted above): the matrices are still compared
+            res['stats']['floyd_line_without_paths'] = res['stats'].get('floyd_line_without_paths', 0) + 1
         res['lines'].append((line, spec))
     if n >= 2 and rout:
         st, out = call(bct.rout_efficiency, np.array(A, dtype=float), transform, t=5)
@@ -547,10 +563,11 @@ def _run_nav(bct, case, res):
     L = np.array(case['A'], dtype=float); Dm = np.array(case['D'], dtype=float); n = len(L)
     mh = case.get('max_hops')
     st, out = call(bct.navigation_wu, L.copy(), Dm.copy(), mh, t=case.get('t', 4.0))
+    res['stats']['calls:navigation_wu'] = 1
     if st == 'timeout':
         res['stats']['timeout:navigation_wu'] = 1; return      # termination is not claimed (3-cycle of ties, max_hops=None)
-    if not _status(res, 'navigation_wu', st, out, case):
-        return
+    if st != 'ok':
+        res['fails'].append(('navigation_wu', 'raises', {'exception': out})); return
     sr, PLb, PLw, PLd, paths = out
     PLb = np.asarray(PLb, dtype=float); PLw = np.asarray(PLw, dtype=float); PLd = np.asarray(PLd, dtype=float)
     nfail = 0; ok_paths = 0
@@ -843,6 +860,24 @@ def drive(ck, cases, results, label):
                 ck.corr_break('Dist model vs bct (%s)' % ln.split(' ', 1)[0], {'line': ln[:600], 'why': why, 'case': cases[ci]})
     ck.cov['traces_validated_against_impl'] = ck.cov.get('traces_validated_against_impl', 0) + len(outs) - nd
     ck.count('correspondence_lines:' + label, len(outs)); ck.count('correspondence_disagreements', nd)
+
+
+TIMEOUT_RATE_LIMIT = float(os.environ.get('VERIF_TIMEOUT_RATE', '0.20'))
+
+
+def timeout_rates(ck):
+    """every watchdog hit is counted per routine (`timeout:<f>` / `calls:<f>` in the evidence); a routine that times out on
+    more than 20 % of its calls is a break of the check (the property is then unobserved for it), not a pass"""
+    rates = {}
+    for k, v in list(ck.dist.items()):
+        if k.startswith('timeout:'):
+            f = k.split(':', 1)[1]
+            calls = ck.dist.get('calls:' + f, 0)
+            rates[f] = (v, calls)
+            if calls and v / calls > TIMEOUT_RATE_LIMIT:
+                ck.breaks.append({'kind': 'timeout-rate', 'function': f, 'timeouts': v, 'calls': calls,
+                                  'limit': TIMEOUT_RATE_LIMIT})
+    ck.cov['timeouts'] = {f: {'timeouts': a, 'calls': b} for f, (a, b) in rates.items()}
 
 
 def absorb(ck, cases, results, funcs=None):
